@@ -65,6 +65,11 @@ pub fn unbounded<T>() -> (Sender<T>, Receiver<T>) {
     (Sender { ch: ch.clone() }, Receiver { ch })
 }
 
+/// Bounded channels are modelled like unbounded ones (a full bounded queue would make `send` block; the
+/// model never blocks in `send`): MODEL_BOUNDED_USED records that the code under test asked for one.
+pub static mut MODEL_BOUNDED_USED: bool = false;
+pub fn bounded<T>(_cap: usize) -> (Sender<T>, Receiver<T>) { unsafe { MODEL_BOUNDED_USED = true; } unbounded() }
+
 pub struct SendError<T>(pub T);
 impl<T> fmt::Debug for SendError<T> { fn fmt(&self, f: &mut fmt::Formatter<'_>) -> fmt::Result { f.write_str("SendError(..)") } }
 impl<T> fmt::Display for SendError<T> { fn fmt(&self, f: &mut fmt::Formatter<'_>) -> fmt::Result { f.write_str("sending on a disconnected channel") } }
